@@ -21,6 +21,13 @@
 (*              per set, both byte orders.                                 *)
 (*  "names"     token writer NmNewSet(u)/NmAdd(d) building name tables     *)
 (*              that refer to the entries of a multi-unit .debug_info.     *)
+(*              The extent of a set is its unit_length (7.2.2, 7.19: the   *)
+(*              next set starts at the byte after unit_length bytes), not  *)
+(*              the position of its terminator: the context `par` gives    *)
+(*              every set a number of padding bytes BETWEEN its terminator *)
+(*              and the end of its unit_length (fixed per set position     *)
+(*              and/or up to a multiple of par.align, as producers that    *)
+(*              pad contributions to 4 or 8 bytes do), any padding byte.   *)
 (*  "units"     the unit cache of a reader as a variable (set of parsed    *)
 (*              unit offsets + iterator cursor) with actions GetCUAt,      *)
 (*              GetCUContaining, IterNext, IterDrop; `obj` is the history. *)
@@ -40,7 +47,13 @@
 (*  PadAgree       on tables whose sets start at multiples of their tuple  *)
 (*                 size, padding measured from the section start equals    *)
 (*                 padding measured from the set start                     *)
-(*  NmRoundTrip    byte-level name-set walker = view                       *)
+(*  NmRoundTrip    byte-level name-set walker (header at the offset derived *)
+(*                 from the previous unit_length, entries up to the        *)
+(*                 terminator) = view; the bytes between each terminator   *)
+(*                 and the next header are exactly the declared padding    *)
+(*  NmSetsTile     set offsets computed from unit_length tile the section; *)
+(*                 with padding the terminator does NOT end on the next    *)
+(*                 header (the two ways of finding it differ)              *)
 (*  NmDieInUnit    every absolute entry offset lies in the unit the set    *)
 (*                 names (ties (b) to (c))                                 *)
 (*  UnitsRight     in every reachable state the answer of the operational  *)
@@ -300,7 +313,7 @@ SecTab == TLCEval([id \in SecIds |-> BuildSec(id)])
 (* ======================================================================= *)
 \* A table is a sequence of sets [u |-> unit index, ents |-> Seq(index into the unit's non-null entries)];
 \* the g-th entry overall (0-based) is named pool[((g + rot) % Len(pool)) + 1].
-\* par = [sec, rot, pool]
+\* par = [sec, rot, pool, pads (padding bytes after the terminator of the s-th set), align (then up to a multiple of it), padb]
 LongName == [i \in 1..70 |-> 97 + (i % 26)]
 Pool7 == << <<109, 97, 105, 110>>,                     \* main
             <<195, 169, 116, 195, 169>>,               \* U+00E9 t U+00E9
@@ -310,21 +323,34 @@ Pool7 == << <<109, 97, 105, 110>>,                     \* main
             <<240, 159, 152, 128>>,                    \* U+1F600 (4-byte sequence)
             <<95, 90, 49, 102, 118>> >>                \* _Z1fv
 Pool2 == << <<105, 110, 116>>, <<195, 169>> >>         \* int, U+00E9: fewer names than entries -> duplicates
-NmPar(sec, rot, pool) == [sec |-> sec, rot |-> rot, pool |-> pool]
-QuickNmPars == {NmPar("S1", 0, Pool7), NmPar("S3", 3, Pool7), NmPar("S2", 5, Pool7), NmPar("S1", 0, Pool2)}
+NmParP(sec, rot, pool, pads, align, padb) == [sec |-> sec, rot |-> rot, pool |-> pool, pads |-> pads, align |-> align, padb |-> padb]
+NmPar(sec, rot, pool) == NmParP(sec, rot, pool, <<0, 0, 0, 0>>, 1, 0)
+\* padded contexts: odd paddings per set position; every set padded to a multiple of 4 / 8; paddings as long as / longer than
+\* a terminator, with non-zero padding bytes
+PaddedNmParsQ == {NmParP("S1", 2, Pool7, <<1, 2, 3, 1>>, 1, 0), NmParP("S2", 1, Pool7, <<0, 0, 0, 0>>, 4, 0),
+                  NmParP("S3", 4, Pool7, <<4, 7, 0, 0>>, 1, 170)}
+PaddedNmParsT == PaddedNmParsQ \cup {NmParP("S4", 0, Pool7, <<0, 0, 0, 0>>, 8, 0), NmParP("S6", 3, Pool7, <<3, 0, 5, 2>>, 1, 255),
+                                     NmParP("S1", 0, Pool2, <<0, 1, 0, 0>>, 4, 0), NmParP("S2", 2, Pool7, <<4, 4, 4, 4>>, 1, 0)}
+QuickNmPars == {NmPar("S1", 0, Pool7), NmPar("S3", 3, Pool7), NmPar("S2", 5, Pool7), NmPar("S1", 0, Pool2)} \cup PaddedNmParsQ
 ThoroughNmPars == {NmPar("S1", 0, Pool7), NmPar("S2", 3, Pool7), NmPar("S3", 5, Pool7), NmPar("S4", 1, Pool7), NmPar("S6", 4, Pool7),
-                   NmPar("S2", 6, Pool7), NmPar("S1", 0, Pool2), NmPar("S4", 1, Pool2)}
+                   NmPar("S2", 6, Pool7), NmPar("S1", 0, Pool2), NmPar("S4", 1, Pool2)} \cup PaddedNmParsT
 
 NmTotal(t) == SumTo([s \in 1..Len(t) |-> Len(t[s].ents)], Len(t))
 NmBefore(t, s) == SumTo([j \in 1..Len(t) |-> Len(t[j].ents)], s - 1)
 NmName(p, g) == p.pool[((g + p.rot) % Len(p.pool)) + 1]
-\* encoder: unit_length, version 2, debug_info_offset, debug_info_length, (offset, name NUL)*, 0
+\* encoder: unit_length, version 2, debug_info_offset, debug_info_length, (offset, name NUL)*, 0, padding inside unit_length
+NmPadLen(raw, s, p) == p.pads[s] + ((p.align - ((raw + p.pads[s]) % p.align)) % p.align)     \* raw = set length without padding
 EncNmSet(t, s, p) ==
   LET S == SecTab[p.sec]   u == t[s].u   nn == S.dies[u]   e == t[s].ents   g0 == NmBefore(t, s)
-      body == Fix(N(2), 2, S.le) \o Fix(N(S.offs[u]), 4, S.le) \o Fix(N(S.sizes[u]), 4, S.le)
-              \o Flat([i \in 1..Len(e) |-> Fix(N(nn[e[i]][1]), 4, S.le) \o NmName(p, g0 + i - 1) \o <<0>>])
-              \o Fix(N(0), 4, S.le)
+      body0 == Fix(N(2), 2, S.le) \o Fix(N(S.offs[u]), 4, S.le) \o Fix(N(S.sizes[u]), 4, S.le)
+               \o Flat([i \in 1..Len(e) |-> Fix(N(nn[e[i]][1]), 4, S.le) \o NmName(p, g0 + i - 1) \o <<0>>])
+               \o Fix(N(0), 4, S.le)
+      body == body0 \o Rep(p.padb, NmPadLen(4 + Len(body0), s, p))
   IN Fix(N(Len(body)), 4, S.le) \o body
+\* padding of set s by arithmetic (NmRoundTrip checks it against the bytes)
+NmRawLen(t, s, p) == 4 + 10 + SumTo([i \in 1..Len(t[s].ents) |-> 4 + Len(NmName(p, NmBefore(t, s) + i - 1)) + 1], Len(t[s].ents)) + 4
+NmPads(t, p) == [s \in 1..Len(t) |-> NmPadLen(NmRawLen(t, s, p), s, p)]
+NmPadded(t, p) == \E s \in 1..Len(t) : NmPads(t, p)[s] > 0
 EncNm(t, p) == Flat([s \in 1..Len(t) |-> EncNmSet(t, s, p)])
 \* view: ordered <<name, cu_ofs, die_ofs (absolute), abbreviation code of that entry>> and the set headers
 NmView(t, p) ==
@@ -340,8 +366,8 @@ NmDistinct(t, p) == LET v == NmView(t, p) IN \A i, j \in 1..Len(v) : i # j => v[
 \* byte-level reader
 ReadNm(bs, le) ==
   LET RECURSIVE RdSets(_, _, _, _)
-      RdSets(off, names, hdrs, tight) ==
-        IF off >= Len(bs) THEN [names |-> names, hdrs |-> hdrs, end |-> off, tight |-> tight]
+      RdSets(off, names, hdrs, slack) ==           \* slack: bytes between each terminator and the end of its unit_length
+        IF off >= Len(bs) THEN [names |-> names, hdrs |-> hdrs, end |-> off, slack |-> slack]
         ELSE LET ulen == SmallDec(Slice(bs, off + 1, 4), le, FALSE)
                  ver == SmallDec(Slice(bs, off + 5, 2), le, FALSE)
                  cu == SmallDec(Slice(bs, off + 7, 4), le, FALSE)
@@ -352,8 +378,8 @@ ReadNm(bs, le) ==
                    IF d = 0 THEN [end |-> p + 4, es |-> acc]
                    ELSE LET nm == CStrAt(bs, p + 4) IN RdEnt(p + 4 + nm.used, Append(acc, <<nm.s, cu, cu + d>>))
                  r == RdEnt(off + 14, <<>>)
-             IN RdSets(off + 4 + ulen, names \o r.es, Append(hdrs, <<ulen, ver, cu, culen>>), tight /\ r.end = off + 4 + ulen)
-  IN RdSets(0, <<>>, <<>>, TRUE)
+             IN RdSets(off + 4 + ulen, names \o r.es, Append(hdrs, <<ulen, ver, cu, culen>>), Append(slack, off + 4 + ulen - r.end))
+  IN RdSets(0, <<>>, <<>>, <<>>)
 
 NmInit == \E p \in NmPars : par = p /\ obj = <<>> /\ cache = {} /\ it = [p |-> -1, n |-> 0] /\ fin = TRUE
 NmNewSet(u) ==
@@ -449,7 +475,9 @@ ArCase ==
    ent |-> [i \in 1..Len(f) |-> <<f[i].b, f[i].l, f[i].k>>]]
 SecLine(S) == [k |-> "sec", id |-> S.id, le |-> S.le, info |-> S.bytes, abbrev |-> S.abbrev, offs |-> S.offs, sizes |-> S.sizes,
                dies |-> S.dies]
-NmCase == [k |-> "nm", sec |-> par.sec, tag |-> IF NmDistinct(obj, par) THEN (IF obj = <<>> THEN "nosets" ELSE "names") ELSE "dup",
+NmCase == [k |-> "nm", sec |-> par.sec,
+           tag |-> (IF NmDistinct(obj, par) THEN (IF obj = <<>> THEN "nosets" ELSE "names") ELSE "dup")
+                   \o (IF NmPadded(obj, par) THEN "+pad" ELSE ""),
            b |-> EncNm(obj, par), names |-> NmView(obj, par), hdrs |-> NmHdrs(obj, par)]
 HistCase == [k |-> "h", sec |-> par.sec, h |-> obj]
 Emit ==
@@ -482,7 +510,16 @@ NmRoundTrip ==
   mode = "names" =>
     LET S == SecTab[par.sec]   bs == EncNm(obj, par)   r == ReadNm(bs, S.le)   v == NmView(obj, par) IN
     /\ r.names = [i \in 1..Len(v) |-> <<v[i][1], v[i][2], v[i][3]>>]
-    /\ r.hdrs = NmHdrs(obj, par) /\ r.end = Len(bs) /\ r.tight
+    /\ r.hdrs = NmHdrs(obj, par) /\ r.end = Len(bs) /\ r.slack = NmPads(obj, par)
+NmSetsTile ==
+  mode = "names" =>
+    LET hd == NmHdrs(obj, par)   pd == NmPads(obj, par)
+        off == [s \in 1..(Len(obj) + 1) |-> SumTo([j \in 1..Len(obj) |-> 4 + hd[j][1]], s - 1)]     \* by unit_length
+    IN /\ off[Len(obj) + 1] = Len(EncNm(obj, par))
+       /\ \A s \in 1..Len(obj) :
+            /\ off[s] + NmRawLen(obj, s, par) + pd[s] = off[s + 1]                 \* terminator end + padding = next header
+            /\ (par.align > 1 => (off[s + 1] % par.align) = 0)
+            /\ pd[s] < par.align + par.pads[s]
 NmDieInUnit ==
   mode = "names" =>
     LET S == SecTab[par.sec]   v == NmView(obj, par) IN
